@@ -67,8 +67,24 @@ def correspondence(ctx):
         B.probe_unrankable(ctx, "C17", bench)
         # every version of the pool, in every spelling, as the bound of a one-constraint range: printing and parsing the
         # range back keeps the range and keeps the version itself on the same side
-        for cl in bench.pool.classes:
-            for t, v in cl[:2]:
+        from harness import pools as P
+        import re as _re
+        cands = [[tv for tv in cl[:2]] for cl in bench.pool.classes]
+        for cl in bench.pool.classes[:3]:
+            # ... and the first members with EVERY short ending of the scheme (a printing rule that drops or rewrites an
+            # ending shows on exactly one of them)
+            t0 = cl[0][0]
+            mm = _re.search(r"[-+~_^]", t0.split(":")[-1])
+            base = t0 if not mm else t0[:len(t0) - len(t0.split(":")[-1]) + mm.start()]
+            extra = []
+            for tail in P.TAILS.get(name, []):
+                try:
+                    extra.append((base + tail, S.vclass(name)(base + tail)))
+                except Exception:  # noqa: BLE001
+                    pass
+            cands.append(extra)
+        for cl in cands:
+            for t, v in cl:
                 if (not t.isascii()) or any(ch in t for ch in "|\\'\" \t\n") or t[0] in "<>=!*vV":
                     continue
                 for cmp_ in (">=", "<"):
